@@ -206,26 +206,39 @@ Section C05_wire.
       carries [vary: accept-encoding, range, <the page's rule headers in rule order>], provided the Package
       extensions leave [vary] alone.  A HEAD request gets the same head (the body is withheld after it). *)
   Theorem wire_vary_advertised : forall ops c hs now,
-    InvV hstate compute rules_of c -> package_keeps_vary package ->
+    InvV hstate compute rules_of c ->
+    (forall r hs0, assoc (B "vary") (package r hs0) = assoc (B "vary") hs0) ->
     exists l,
       runV hstate compute cache_on ims_on parse_ims sanitize_ok prime negotiate rules_of dbg (c, hs) now ops = Ok l /\
-      Forall2 (wire_ok prime rules_of package err416_body) ops l.
+      Forall2 (fun o (oc : obs * list request) =>
+                 match o, fst oc with
+                 | OReq r0, ObReply rp _ =>
+                     forall san w, send_v rules_of package err416_body true (prime r0) san rp = Ok w -> w_body w <> [] ->
+                       assoc (B "vary") (w_headers w)
+                       = Some (B "accept-encoding, range" ++ concat (map (fun ru => B ", " ++ ru_name ru) (rules_of (rq_path (prime r0)))))
+                 | _, _ => True
+                 end) ops l.
   Proof. exact (wire_vary_run hstate compute cache_on ims_on parse_ims sanitize_ok prime negotiate rules_of dbg package err416_body). Qed.
 
-  (** when [send] does not replace the response, the [vary] header on the wire is the one [handle_cache] set
-      (repaired or not), and a non-empty body on the wire comes from a non-empty body *)
+  (** when [send] does not replace the response by the 416 page, the [vary] header on the wire is the one
+      [handle_cache] set (repaired or not), and a non-empty body on the wire comes from a non-empty body *)
   Theorem send_keeps_vary : forall fixed r san rp w,
-    package_keeps_vary package ->
-    send_v rules_of package err416_body fixed r san rp = Ok w -> ~ replaced san rp ->
+    (forall r' hs0, assoc (B "vary") (package r' hs0) = assoc (B "vary") hs0) ->
+    send_v rules_of package err416_body fixed r san rp = Ok w ->
+    ~ (exists rg e, san = Some rg /\ apply_range true rg (rp_status rp) (rp_body rp) = Err e) ->
     assoc (B "vary") (w_headers w) = assoc (B "vary") (rp_headers rp) /\ (w_body w <> [] -> rp_body rp <> []).
   Proof. exact (send_keeps_vary_lemma rules_of package err416_body). Qed.
 
   (** ---- (7) If-Modified-Since: the 304 is decided on the date of the cache entry alone, before the variant
-      vector is looked at ... ---- *)
+      vector is looked at: an entry for the request's key, a request that passed sanitize, GET or HEAD, and a
+      date not older than the *entry's* creation minus one second — nothing about the request's own tuple ... ---- *)
   Theorem not_modified_before_variant_lookup : forall c hs now r0 k e c1,
-    ims_hit cache_on ims_on parse_ims sanitize_ok prime c now r0 k e c1 ->
+    cache_on = true /\ ims_on = true /\ vlookup (prime r0) c now = ((k, Some e), c1) /\
+    sanitize_ok r0 = true /\ get_or_head (rq_method (prime r0)) = true /\
+    (exists v t, header (B "if-modified-since") (prime r0) = Some v /\ parse_ims v = Some t /\ ims_fresh t (ve_created e) = true) ->
     serveV hstate compute cache_on ims_on parse_ims sanitize_ok prime negotiate rules_of dbg (c, hs) now r0
-    = Ok ((c1, hs), reply304 ims_on, [], []).
+    = Ok ((c1, hs), {| rp_status := 304; rp_headers := []; rp_body := []; rp_identity := []; rp_last_modified := ims_on;
+                       rp_from_cache := true |}, [], []).
   Proof. exact (not_modified_before_lookup hstate compute cache_on ims_on parse_ims sanitize_ok prime negotiate rules_of dbg). Qed.
 
   (** ... it is truthful towards every client whose copy came out of the entry it is decided on: a request
@@ -243,7 +256,8 @@ Section C05_wire.
       entry stems from that very entry value, up to the one-second resolution of HTTP dates — C04.) *)
   Theorem entry_changes_are_dated : forall st now o st' now' ob calls,
     stepV hstate compute cache_on ims_on parse_ims sanitize_ok prime negotiate rules_of dbg st now o = Ok (st', now', ob, calls) ->
-    dated now (fst st) (fst st').
+    forall k, pc_find k (fst st') = pc_find k (fst st) \/ pc_find k (fst st') = None \/
+              exists e', pc_find k (fst st') = Some e' /\ ve_created e' = now.
   Proof. exact (entry_changes_are_dated_lemma hstate compute cache_on ims_on parse_ims sanitize_ok prime negotiate rules_of dbg). Qed.
 End C05_wire.
 
